@@ -427,3 +427,93 @@ def regex_of(db, call, modname=None):
         nsub = {"sub": 1, "subn": 1}.get(m, 0)
         return m, str_value(comp.args[0]), flagval(fl), (call.args[nsub] if len(call.args) > nsub else None)
     return None
+
+
+# ----------------------------------------------------------------------
+# branch paths: the decisions of a piece of code independent of how its if/else is spelled
+# ----------------------------------------------------------------------
+
+class BranchPath:
+    def __init__(self, conds, stmts, exit_):
+        self.conds = conds    # [(test expression node, truth value)] in evaluation order
+        self.stmts = stmts    # statements executed (compound statements other than `if` are atomic)
+        self.exit = exit_     # the Return / Raise / Continue / Break that ends the path, or None (falls off the end)
+
+    def holds(self, text, value=True):
+        """was the condition with this source text decided `value` on the path (negations are folded: `not c` True == c False)"""
+        for t, v in self.conds:
+            tt, vv = _fold_not(t, v)
+            if src(tt) == text and vv == value:
+                return True
+        return False
+
+    def order(self):
+        return [src(_fold_not(t, v)[0]) for t, v in self.conds]
+
+
+def _fold_not(t, v):
+    while isinstance(t, ast.UnaryOp) and isinstance(t.op, ast.Not):
+        t, v = t.operand, not v
+    if isinstance(t, ast.Compare) and len(t.ops) == 1 and isinstance(t.ops[0], (ast.IsNot, ast.NotIn, ast.NotEq)):
+        inv = {ast.IsNot: ast.Is, ast.NotIn: ast.In, ast.NotEq: ast.Eq}[type(t.ops[0])]
+        t = ast.Compare(left=t.left, ops=[inv()], comparators=t.comparators)
+        v = not v
+    return t, v
+
+
+def branch_paths(stmts, limit=512):
+    """every path through the if-statements of a statement list"""
+    out = []
+
+    def go(todo, conds, done):
+        if len(out) > limit:
+            raise AnalysisError("too many branch paths")
+        if not todo:
+            out.append(BranchPath(conds, done, None))
+            return
+        s, rest = todo[0], todo[1:]
+        if isinstance(s, ast.If):
+            go(list(s.body) + rest, conds + [(s.test, True)], done)
+            go(list(s.orelse) + rest, conds + [(s.test, False)], done)
+            return
+        if isinstance(s, (ast.Return, ast.Raise, ast.Continue, ast.Break)):
+            out.append(BranchPath(conds, done + [s], s))
+            return
+        go(rest, conds, done + [s])
+    go(list(stmts), [], [])
+    return out
+
+
+def arms(e):
+    """the alternative values of a (possibly nested) conditional expression; [e] for any other expression"""
+    if isinstance(e, ast.IfExp):
+        return arms(e.body) + arms(e.orelse)
+    return [e]
+
+
+def guards_of(node, stop=None):
+    """[(condition source text, truth value)] of the if statements / conditional expressions that enclose `node`
+    (innermost first), negations folded"""
+    out = []
+    child = node
+    for a in ancestors(node):
+        if a is stop:
+            break
+        if isinstance(a, ast.If):
+            if any(contains(b, child) for b in a.body):
+                t, v = _fold_not(a.test, True)
+                out.append((src(t), v))
+            elif any(contains(b, child) for b in a.orelse):
+                t, v = _fold_not(a.test, False)
+                out.append((src(t), v))
+        elif isinstance(a, ast.IfExp):
+            if contains(a.body, child):
+                t, v = _fold_not(a.test, True)
+                out.append((src(t), v))
+            elif contains(a.orelse, child):
+                t, v = _fold_not(a.test, False)
+                out.append((src(t), v))
+        child = a
+        if isinstance(a, (ast.FunctionDef, ast.Lambda)):
+            break
+    return out
